@@ -52,7 +52,7 @@ def vals(obj):
         if k.startswith("_") or v is None or k in consts:
             continue
         out[k] = conv(v)
-    return ("M", out)
+    return ("M", out, getattr(type(obj), "__partial_src__", type(obj)))
 
 
 def conv(v):
@@ -88,9 +88,15 @@ def ref_merge(x, y, overwrite, info):
                 out.append(e)
         return ("S", sorted(out, key=repr))
     if kx == "M" and ky == "M":
+        cx, cy = x[2], y[2]
+        if not (issubclass(cx, cy) or issubclass(cy, cx)):
+            # unrelated sibling classes at one position: the documented rule "otherwise the new value overwrites" is
+            # order-dependent itself; outside the claimed domain -> the whole case is only checked for crashes
+            info["siblings"] = True
+            raise Conflict()
         info["nested"] = info.get("nested", 0) + 1
         return ("M", {k: ref_merge(x[1].get(k), y[1].get(k), overwrite, info) for k in {**x[1], **y[1]}
-                      if ref_merge(x[1].get(k), y[1].get(k), overwrite, info) is not None})
+                      if ref_merge(x[1].get(k), y[1].get(k), overwrite, info) is not None}, cx)
     # opaque values
     if _veq(x, y):
         info["equal_scalar"] = True
@@ -132,9 +138,18 @@ def has_falsy(c):
 # ---------------------------------------------------------------- building partials from recipes
 
 def to_yaml(recipe):
-    import yaml
+    # written with the YAML 1.2 library family the code under test parses with (PyYAML is YAML 1.1 and leaves e.g.
+    # the string "1e3" unquoted, which YAML 1.2 reads as a float)
+    import io
 
-    return yaml.safe_dump(recipe, default_flow_style=False, allow_unicode=True)
+    from ruamel.yaml import YAML
+
+    y = YAML(typ="safe")
+    y.default_flow_style = False
+    y.allow_unicode = True
+    buf = io.StringIO()
+    y.dump(recipe, buf)
+    return buf.getvalue()
 
 
 def make_partial(cls, recipe, origin, scratch):
@@ -188,7 +203,16 @@ def check_triple(cls, recipes, origins, overwrite, mode, rec=None, sample=None, 
         for r, o in zip(recipes, origins):
             try:
                 parts.append(make_partial(cls, r, o, scratch))
-            except (ValidationError, ValueError, TypeError):
+            except (ValidationError, ValueError, TypeError) as e:
+                if o in ("json", "yaml", "loader"):
+                    # the same recipe must be accepted or rejected by every way of parsing it
+                    try:
+                        make_partial(cls, r, "obj", scratch)
+                    except (ValidationError, ValueError, TypeError):
+                        pass
+                    else:
+                        raise Violation(f"C14:origin-rejects-what-parse_obj-accepts:{o}", f"{type(e).__name__}: {str(e)[:200]} for {json.dumps(r)[:200]}",
+                                        "same partial from dict, JSON, YAML and metadata file")
                 if rec is not None:
                     rec.cls("rejected_at_construction")
                 return
@@ -257,6 +281,10 @@ def check_triple(cls, recipes, origins, overwrite, mode, rec=None, sample=None, 
         except Conflict:
             flat_conflict = True
         eqs = info.get("equal_scalar", False)
+        if info.get("siblings"):
+            if rec is not None:
+                rec.cls("skipped_unrelated_sibling_models")
+            return
         if exp_conflict and not got_conflict:
             raise Violation("C14:conflict-silently-resolved", f"{tag}: (a+b)+c = {_show(vals(got))} for a={_show(csnaps[0])} "
                             f"b={_show(csnaps[1])} c={_show(csnaps[2])}", "ValueError (allow_overwrite=False)")
